@@ -35,6 +35,9 @@ def check_relocatable(path):
     if e.segments:
         bad.append("has-program-headers")
     nsec = len(e.sections)
+    z = e.sections[0] if e.sections else None
+    if z is not None and (z.type or z.flags or z.addr or z.offset or z.size or z.link or z.info or z.addralign or z.entsize):
+        bad.append("section-header-0-not-null")
     symtabs = [s for s in e.sections if s.type == elf.SHT_SYMTAB]
     if len(symtabs) != 1:
         bad.append("symtab-count")
@@ -94,22 +97,58 @@ SYMCLASS = {elf.STT_FUNC: "func", elf.STT_OBJECT: "object", elf.STT_TLS: "tls", 
 
 
 def lost_symbols(inputs, output):
-    """Global/weak symbols that an input defines (or declares COMMON) and the -r output no longer
-    has as defined/common. COMDAT duplicates are defined by another input, so they are found."""
+    """Symbol-table information of the inputs that the -r output must still carry:
+      * a global/weak symbol an input defines (or declares COMMON) must still be a non-local
+        defined/COMMON symbol (COMDAT duplicates are defined by another input, so they are found);
+      * a symbol the inputs reference but do not define must still be present (undefined).
+    -> list of (class, name); classes: common-symbol-lost, <type>-symbol-lost,
+    <vis>-global-made-local, start-stop-reference-lost, weak-undefined-reference-lost,
+    undefined-reference-lost, comdat-groups-dropped."""
     try:
         out = elf.Elf(output)
-        have = {s.name for s in out.symtab() if s.bind != elf.STB_LOCAL and s.shndx != elf.SHN_UNDEF}
+        osyms = out.symtab()
     except Exception:
         return []
+    have = {s.name for s in osyms if s.bind != elf.STB_LOCAL and s.shndx != elf.SHN_UNDEF}
+    local = {s.name: s for s in osyms if s.bind == elf.STB_LOCAL and s.shndx != elf.SHN_UNDEF and s.name}
+    present = {s.name for s in osyms}
     lost = []
+    defined_somewhere = set()
+    undef = {}
+    ngroups = 0
     for p in inputs:
-        for s in elf.Elf(p).symtab():
-            if s.bind == elf.STB_LOCAL or s.shndx == elf.SHN_UNDEF or not s.name:
+        ie = elf.Elf(p)
+        ngroups += sum(1 for x in ie.sections if x.type == elf.SHT_GROUP)
+        referenced = {r.sym for rs in ie.sections if rs.type == elf.SHT_RELA for r in ie.relas(rs)}
+        for s in ie.symtab():
+            if s.bind == elf.STB_LOCAL or not s.name:
                 continue
+            if s.shndx == elf.SHN_UNDEF:
+                if s.index in referenced:      # an unreferenced declaration may be dropped harmlessly
+                    undef.setdefault(s.name, s)
+                continue
+            defined_somewhere.add(s.name)
             if s.name not in have:
-                cls = "common" if s.shndx == elf.SHN_COMMON else SYMCLASS.get(s.type, "other")
-                lost.append((cls, s.name))
-    return lost
+                if s.name in local:
+                    vis = {elf.STV_HIDDEN: "hidden", elf.STV_PROTECTED: "protected", elf.STV_INTERNAL: "internal"}.get(s.vis, "default")
+                    lost.append((f"{vis}-global-made-local", s.name))
+                else:
+                    cls = "common" if s.shndx == elf.SHN_COMMON else SYMCLASS.get(s.type, "other")
+                    lost.append((cls + "-symbol-lost", s.name))
+    for name, s in undef.items():
+        if name in defined_somewhere or name in present:
+            continue
+        if name.startswith("__start_") or name.startswith("__stop_"):
+            lost.append(("start-stop-reference-lost", name))
+        elif name == "_TLS_MODULE_BASE_":
+            lost.append(("tls-module-base-reference-lost", name))
+        elif s.bind == elf.STB_WEAK:
+            lost.append(("weak-undefined-reference-lost", name))
+        elif name != "_GLOBAL_OFFSET_TABLE_":
+            lost.append(("undefined-reference-lost", name))
+    if ngroups and not any(x.type == elf.SHT_GROUP for x in out.sections):
+        lost.append(("comdat-groups-dropped", f"{ngroups} input groups"))
+    return sorted(set(lost))
 
 
 def has_common(path):
@@ -160,7 +199,7 @@ def partial(case, linker, groups, objs, nest):
     return [o for o in outs if o is not None], produced, made_from, None
 
 
-def violation(ctx, case, sig, desc, P, cm, objs, groups, extra_files=None, info=None):
+def violation(ctx, case, sig, desc, P, cm, objs, groups, nest, extra_files=None, info=None):
     ctx.note("violations-by-signature:" + sig)
     if not _once.first(sig):
         return
@@ -169,41 +208,56 @@ def violation(ctx, case, sig, desc, P, cm, objs, groups, extra_files=None, info=
         files["src/" + name] = text
     for o in objs:
         files["obj/" + os.path.basename(o)] = o
-    files["groups.txt"] = "\n".join("wild -r -o g%d.o %s" % (k, " ".join("obj/" + os.path.basename(objs[j]) for j in g))
-                                    for k, g in enumerate(groups) if len(g) > 1) + "\n"
+    files["groups.txt"] = "".join("wild -r -o g%d.o %s\n" % (k, " ".join("obj/" + os.path.basename(objs[j]) for j in g))
+                                  for k, g in enumerate(groups) if len(g) > 1) + \
+        "".join(f"# then: wild -r -o n{a}_{b}.o <group {a}: g{a}.o or its single object> <group {b}>\n" for a, b in nest) + \
+        f"# groups (indices into the object list in link order): {groups}\n"
     files.update(extra_files or {})
     ctx.violation(sig, desc, case=str(case.i), files=files, info=info)
 
 
+# a defect found in the relocatable output masks everything downstream in that program; the
+# program is generated again without the feature that triggers it so that exploration goes on
+FORBID = {"common-symbol-lost": "common", "hidden-global-made-local": "hidden", "start-stop-reference-lost": "custom_sec",
+          "comdat-groups-dropped": "cxx", "weak-undefined-reference-lost": "weak_undef", "tls-module-base-reference-lost": "tlsdesc"}
+
+
 def one_program(ctx, i):
-    r = rng("C27", ctx.seed, i)
-    feats = pg.random_features(r, force=("local",))
-    prog = pg.gen_program(r, features=feats, want_lib=False)
-    cm = r.choice(pg.CODE_MODELS)
-    case = Case(ctx, i)
-    built = prog.build(ctx, cm)
-    objs = [b.obj for b in built]
-    n = len(objs)
-    for f in sorted(prog.features):
-        ctx.note("feature:" + f)
-    # random partition into 1-4 multi-object groups; the rest stay single objects
-    idx = list(range(n))
-    r.shuffle(idx)
-    ng = r.randint(1, min(4, max(1, n // 2)))
-    cut = sorted(r.sample(range(1, n), min(n - 1, r.randint(ng, min(n - 1, ng + 2)))))
-    parts = [sorted(idx[a:b]) for a, b in zip([0] + cut, cut + [n])]
-    r.shuffle(parts)
-    multi = [k for k, g in enumerate(parts) if len(g) > 1]
-    nest = []
-    if len(parts) >= 2 and r.random() < 0.5:
-        a, b = sorted(r.sample(range(len(parts)), 2))
-        nest.append((a, b))
-    kinds = prog.kinds(cm, with_shared=False)
-    kinds = r.sample(kinds, min(len(kinds), ctx.pick(2, 4)))
-    _run_partition(ctx, case, prog, cm, built, objs, parts, nest, kinds, retry_without_common=True)
+    forbid = set()
+    for attempt in range(3):
+        r = rng("C27", ctx.seed, i)
+        feats = pg.random_features(r, force=("local",), forbid=forbid)
+        prog = pg.gen_program(r, features=feats, want_lib=False)
+        cm = r.choice(pg.CODE_MODELS)
+        case = Case(ctx, i)
+        built = prog.build(ctx, cm)
+        objs = [b.obj for b in built]
+        n = len(objs)
+        if attempt == 0:
+            for f in sorted(prog.features):
+                ctx.note("feature:" + f)
+        # random partition into multi-object groups; the rest stay single objects
+        idx = list(range(n))
+        r.shuffle(idx)
+        ng = r.randint(1, min(4, max(1, n // 2)))
+        cut = sorted(r.sample(range(1, n), min(n - 1, r.randint(ng, min(n - 1, ng + 2)))))
+        parts = [sorted(idx[a:b]) for a, b in zip([0] + cut, cut + [n])]
+        r.shuffle(parts)
+        nest = []
+        if len(parts) >= 2 and r.random() < 0.5:
+            a, b = sorted(r.sample(range(len(parts)), 2))
+            nest.append((a, b))
+        kinds = prog.kinds(cm, with_shared=False)
+        kinds = r.sample(kinds, min(len(kinds), ctx.pick(2, 4)))
+        more = _run_partition(ctx, case, prog, cm, built, objs, parts, nest, kinds)
+        if not more or not (more - forbid):
+            return
+        forbid |= more
+        ctx.note("regenerated-without:" + "+".join(sorted(more)))
 
 
-def _run_partition(ctx, case, prog, cm, built, objs, parts, nest, kinds, retry_without_common):
+def _run_partition(ctx, case, prog, cm, built, objs, parts, nest, kinds):
+    """Returns the set of features to forbid in a regenerated program (empty/None: done)."""
     order = [j for g in parts for j in g]
     if nest:
         # nesting moves group b next to group a
@@ -215,54 +269,42 @@ def _run_partition(ctx, case, prog, cm, built, objs, parts, nest, kinds, retry_w
     ctx.note("nested", len(nest))
     # --- partial links
     w_inputs, w_made, w_from, w_fail = partial(case, "wild", parts, objs, nest)
-    l_inputs, _l_made, _l_from, l_fail = partial(case, "ld", parts, objs, nest)
+    l_inputs, l_made, l_from, l_fail = partial(case, "ld", parts, objs, nest)
     if l_fail is not None:
         ctx.inconclusive("GNU ld -r rejected the grouping")
-        return
+        return None
     if w_fail is not None:
         if w_fail.timed_out:
             ctx.inconclusive("watchdog fired")
-            return
+            return None
         violation(ctx, case, "partial-link:link-failed:" + pc.norm_err(w_fail.errtext()),
-                  f"wild -r fails on objects GNU ld -r combines: {w_fail.errtext()[:300]}", prog, cm, objs, parts,
+                  f"wild -r fails on objects GNU ld -r combines: {w_fail.errtext()[:300]}", prog, cm, objs, parts, nest,
                   {"wild-r.stderr": w_fail.errtext()})
-        return
-    # --- structure of every relocatable wild produced
-    struct_bad = set()
-    lost = []
+        return None
+    # --- structure of every relocatable wild produced (rules calibrated on ld -r's outputs)
+    struct_bad, lost = set(), []
     for o in w_made:
         struct_bad.update(check_relocatable(o))
-        lost += lost_symbols([p for p in w_from[o]], o)
-    for o in _l_made:
-        cal = check_relocatable(o)
-        if cal:
-            # the rule is not one GNU ld's output satisfies: drop it (never seen; counted)
-            ctx.note("structure-rule-fails-on-ld-output:" + ",".join(cal))
-            struct_bad -= set(cal)
+        lost += lost_symbols(w_from[o], o)
+    cal_bad, cal_lost = set(), set()
+    for o in l_made:
+        cal_bad.update(check_relocatable(o))
+        cal_lost.update(c for c, _n in lost_symbols(l_from[o], o))
+    for c in sorted(cal_bad | cal_lost):
+        ctx.note("rule-fails-on-ld-r-output:" + c)
+    struct_bad -= cal_bad
+    lost = [(c, nm) for c, nm in lost if c not in cal_lost]
+    wr = {"wild-r/" + os.path.basename(o): o for o in w_made}
     for rule in sorted(struct_bad):
-        violation(ctx, case, "partial-link:structure:" + rule, f"relocatable output of wild -r violates {rule}", prog, cm, objs, parts,
-                  {"wild-r/" + os.path.basename(o): o for o in w_made})
-    lost_classes = sorted({c for c, _n in lost})
-    if lost:
-        for c in lost_classes:
-            names = sorted({nm for cc, nm in lost if cc == c})[:6]
-            violation(ctx, case, f"partial-link:{c}-symbol-lost",
-                      f"wild -r output lacks {c} symbol(s) {names} that its inputs define; references to them end up "
-                      f"with symbol index 0 / undefined in the final link", prog, cm, objs, parts,
-                      {"wild-r/" + os.path.basename(o): o for o in w_made}, info={"lost": names})
-        if lost_classes == ["common"] and retry_without_common:
-            # known defect masks everything else in this program: keep exploring with the
-            # COMMON-carrying objects left out of the groups
-            keep = []
-            for g in parts:
-                cg = [j for j in g if has_common(objs[j])]
-                rest = [j for j in g if j not in cg]
-                if rest:
-                    keep.append(rest)
-                keep += [[j] for j in cg]
-            ctx.note("retried-without-common-objects")
-            _run_partition(ctx, case, prog, cm, built, objs, keep, [], kinds, retry_without_common=False)
-        return
+        violation(ctx, case, "partial-link:structure:" + rule, f"relocatable output of wild -r violates {rule}", prog, cm, objs, parts, nest, wr)
+    classes = sorted({c for c, _n in lost})
+    for c in classes:
+        names = sorted({nm for cc, nm in lost if cc == c})[:6]
+        violation(ctx, case, f"partial-link:{c}",
+                  f"wild -r output: {c} {names} (the inputs define/reference them; `ld -r` keeps them)", prog, cm, objs, parts, nest, wr,
+                  info={"names": names})
+    if classes:
+        return {FORBID[c] for c in classes if c in FORBID} or None
     # --- final links
     for kind in kinds:
         ref = pg.link_and_run(ctx, "ld", prog, built, kind, workdir=case.dir("ld-direct-" + kind), order=order)
@@ -272,7 +314,7 @@ def _run_partition(ctx, case, prog, cm, built, objs, parts, nest, kinds, retry_w
         cal = pg.link_and_run(ctx, "ld", prog, built, kind, workdir=case.dir("ld-ldr-" + kind), inputs_override=l_inputs)
         if not cal.ok or cal.transcript != ref.transcript:
             ctx.inconclusive("GNU ld's own partial link is not transparent for this grouping")
-            ctx.note("ld-r-not-transparent:" + pc.outcome(cal, ref.transcript, kind)[1])
+            ctx.note("ld-r-not-transparent:" + ":".join(pc.outcome(cal, ref.transcript, kind)))
             continue
         wd = pg.link_and_run(ctx, "wild", prog, built, kind, workdir=case.dir("w-direct-" + kind), order=order)
         wd_out = pc.outcome(wd, ref.transcript, kind)
@@ -292,16 +334,41 @@ def _run_partition(ctx, case, prog, cm, built, objs, parts, nest, kinds, retry_w
             if final == "wild" and wd_out == (cls, detail):
                 ctx.inconclusive("masked: wild's direct link of this kind already fails the same way")
                 continue
+            if detail.startswith("cause=pt_tls"):
+                ctx.inconclusive("masked: static TLS segment misalignment (a C28 finding, independent of -r)")
+                continue
             sig = f"final-link-by-{final}:{cls}:{detail}:kind={kind}"
+            # mechanism probes: which change makes the difference go away?
+            mech = None
+            if final == "wild" and cls in ("transcript-diff", "run-crash"):
+                lr2 = pg.link_and_run(ctx, final, prog, built, kind, workdir=case.dir(f"{final}-wr-nomerge-" + kind),
+                                      inputs_override=w_inputs, extra_link_args=["-Wl,--no-string-merge"])
+                o2 = pc.outcome(lr2, ref.transcript, kind)
+                if o2[0] == "same":
+                    mech = "final-link-by-wild:merged-string-reference-wrong(fixed-by---no-string-merge)"
+                elif o2[1].startswith("cause=pt_tls"):
+                    ctx.inconclusive("masked: static TLS segment misalignment (a C28 finding) hides the mechanism probe")
+                    continue
+            if mech is None and nest:
+                flat_inputs, _m, _f, fail = partial(case, "wild", parts, objs, [])
+                if fail is None:
+                    lr3 = pg.link_and_run(ctx, final, prog, built, kind, workdir=case.dir(f"{final}-wr-flat-" + kind), inputs_override=flat_inputs)
+                    if pc.outcome(lr3, ref.transcript, kind)[0] == "same":
+                        nz = any(sy.type == elf.STT_SECTION and sy.value for o in w_made for sy in elf.Elf(o).symtab())
+                        mech = "nested-partial-link:output-corrupt(first-level-outputs-link-fine)" + \
+                            (":section-symbols-with-nonzero-value" if nz else "")
+            if mech:
+                sig = mech
             d = pg.diff_transcripts(ref.transcript, lr.transcript or "")[:6] if lr.run is not None else []
             violation(ctx, case, sig,
                       f"program linked by {final} from wild -r outputs differs from the direct link: {cls} {detail}; "
                       f"first differences (probe, id, direct, partial): {d}; stderr: {(lr.link.errtext() if lr.link else '')[:300]}",
-                      prog, cm, objs, parts,
-                      {**{"wild-r/" + os.path.basename(o): o for o in w_made}, "direct.transcript": ref.transcript,
+                      prog, cm, objs, parts, nest,
+                      {**wr, "direct.transcript": ref.transcript,
                        "partial.transcript": lr.transcript or "", "final.stderr": lr.link.errtext() if lr.link else "",
                        "commands.txt": pg.command_text(ctx, final, prog, lr)},
                       info={"groups": parts, "nested": nest, "kind": kind})
+    return None
 
 
 # ---- pinned: COMMON symbols are dropped by wild -r ------------------------------------------------
@@ -323,7 +390,7 @@ def pinned_common(ctx):
         return
     lost = lost_symbols([a, b], o)
     if lost:
-        sig = f"partial-link:{lost[0][0]}-symbol-lost"
+        sig = f"partial-link:{lost[0][0]}"
         ctx.note("violations-by-signature:" + sig)
         if _once.first(sig):
             ctx.violation(sig, f"pinned: `wild -r a.o b.o` (both declare COMMON `int cc[4]`, -fcommon) produces a symbol table "
@@ -342,7 +409,7 @@ def main(ctx):
     ctx.assumptions = ["GNU ld's direct link in the same effective object order defines the expected transcript",
                        "a grouping for which `ld -r` + ld is itself not transparent is inconclusive"]
     tools.wild()
-    n = ctx.pick(40, 600)
+    n = ctx.pick(14, 300)
     jobs = [("pin", 0)] + [("p", i) for i in range(n)]
     if ctx.replay is not None:
         c = str(ctx.replay.get("case"))
